@@ -518,7 +518,7 @@ def run_pipe_case(case, watchdog):
         prog = "trap '' TERM; cat >/dev/null; " + nap       # a delivery program that cannot be asked politely to stop
     elif case.get('child') == 'no-stdin-read':
         prog = nap
-    relay = PipeRelay(['/bin/sh', '-c', prog], timeout=0.1)
+    relay = PipeRelay(['/bin/sh', '-c', prog], timeout=0.3)     # long enough for the fork itself on a busy machine
     relay.per_recipient = case['per_recipient']
     env = c11.make_env(2 if case['per_recipient'] else 1, 'p')
     got = AsyncResult()
